@@ -52,59 +52,81 @@ Proof.
   unfold aR, dctA2. replace 8 with (sqrt 8 * sqrt 8) at 3 by (apply sqrt_sqrt; lra). ring.
 Qed.
 
+Lemma nth_lin2 data j : (j < 64)%nat -> nth j (map (lin2_entry data) (seq 0 64)) 0%Z = lin2_entry data j.
+Proof.
+  intros Hj. rewrite (nth_indep _ 0%Z (lin2_entry data 0%nat)) by (rewrite map_length, seq_length; exact Hj).
+  rewrite map_nth. rewrite seq_nth by exact Hj. reflexivity.
+Qed.
+
+Lemma coef_round_real cf data j : cfg_ok cf -> length data = 64%nat -> Forall (inb (centersample cf)) data -> (j < 64)%nat ->
+  Rabs (IZR (nth j (fdct_islow cf data) 0%Z) - IZR (lin2_entry data j) / 67108864) <= IZR (rbound cf) / 67108864.
+Proof.
+  intros Hok Hlen HF Hj.
+  pose proof (fdct_rounding_error_proof cf data Hok Hlen HF) as HR.
+  assert (HlenF : length (fdct_islow cf data) = 64%nat) by (apply fdct_length; exact Hlen).
+  pose proof (Forall2_nth _ _ _ 0%Z 0%Z j HR ltac:(lia)) as Hr. cbv beta in Hr.
+  rewrite (fdct_lin2d_kronecker data Hlen), (nth_lin2 data j Hj) in Hr.
+  set (F := nth j (fdct_islow cf data) 0%Z) in *. set (L := lin2_entry data j) in *. clearbody F L. clear HR HlenF.
+  destruct Hr as [Hr1 Hr2]. apply IZR_le in Hr1, Hr2. rewrite minus_IZR, mult_IZR in Hr1, Hr2.
+  rewrite opp_IZR in Hr1. change (IZR (2 ^ 26)) with 67108864 in Hr1, Hr2.
+  apply Rabs_le. split; lra.
+Qed.
+
+Lemma lin2_real data j :
+  IZR (lin2_entry data j) / 67108864 = rsum 64 (fun p => mR (j / 8) (p / 8) * mR (j mod 8) (p mod 8) * vecZ data p).
+Proof.
+  unfold lin2_entry. rewrite IZR_zsum. unfold Rdiv. rewrite <- rsum_scal_r. apply rsum_ext. intros p _.
+  rewrite !mult_IZR. unfold mR, vecZ. field.
+Qed.
+
+Lemma dct2_real (X : nat -> R) j :
+  8 * ap 64 dctA2 X j = rsum 64 (fun p => aR (j / 8) (p / 8) * aR (j mod 8) (p mod 8) * X p).
+Proof. unfold ap. rewrite <- rsum_scal. apply rsum_ext. intros p _. rewrite aR_kron. ring. Qed.
+
+Lemma const_part cf (X : nat -> R) j : (j < 64)%nat -> 0 <= cmax cf -> (forall p, (p < 64)%nat -> Rabs (X p) <= cmax cf) ->
+  Rabs (rsum 64 (fun p => mR (j / 8) (p / 8) * mR (j mod 8) (p mod 8) * X p) -
+        rsum 64 (fun p => aR (j / 8) (p / 8) * aR (j mod 8) (p mod 8) * X p)) <= 64 * (2815 / 1000 * acc_delta * cmax cf).
+Proof.
+  intros Hj Hc0 HX.
+  replace (rsum 64 (fun p => mR (j / 8) (p / 8) * mR (j mod 8) (p mod 8) * X p) -
+           rsum 64 (fun p => aR (j / 8) (p / 8) * aR (j mod 8) (p mod 8) * X p))
+    with (rsum 64 (fun p => (mR (j / 8) (p / 8) * mR (j mod 8) (p mod 8) - aR (j / 8) (p / 8) * aR (j mod 8) (p mod 8)) * X p)).
+  2:{ rewrite (rsum_ext 64 _ (fun p => mR (j / 8) (p / 8) * mR (j mod 8) (p mod 8) * X p
+                                  + (-1) * (aR (j / 8) (p / 8) * aR (j mod 8) (p mod 8) * X p))) by (intros; ring).
+      rewrite rsum_plus, rsum_scal. ring. }
+  replace 64 with (INR 64) at 1 by (simpl; lra). apply rsum_abs_bound. intros p Hp.
+  rewrite Rabs_mult.
+  assert (Hk : Rabs (mR (j / 8) (p / 8) * mR (j mod 8) (p mod 8) - aR (j / 8) (p / 8) * aR (j mod 8) (p mod 8))
+               <= 2815 / 1000 * acc_delta).
+  { apply kron_entry_accuracy; try (apply Nat.div_lt_upper_bound; lia); apply Nat.mod_upper_bound; lia. }
+  specialize (HX p Hp).
+  assert (0 <= Rabs (X p)) by apply Rabs_pos.
+  generalize dependent (Rabs (mR (j / 8) (p / 8) * mR (j mod 8) (p mod 8) - aR (j / 8) (p / 8) * aR (j mod 8) (p mod 8))).
+  intros r Hk. assert (0 <= 2815 / 1000 * acc_delta) by (unfold acc_delta; lra).
+  destruct (Rle_dec 0 r); nra.
+Qed.
+
 Lemma fdct_accuracy_coef : forall cf data j, cfg_ok cf -> length data = 64%nat ->
   Forall (inb (centersample cf)) data -> (j < 64)%nat ->
   Rabs (vecZ (fdct_islow cf data) j / 8 - ap 64 dctA2 (vecZ data) j) <= eta8 cf / 8.
 Proof.
   intros cf data j Hok Hlen HF Hj.
-  pose proof (fdct_rounding_error_proof cf data Hok Hlen HF) as HR.
-  pose proof (fdct_lin2d_kronecker data Hlen) as HK.
-  assert (HlenF : length (fdct_islow cf data) = 64%nat) by (apply fdct_length; exact Hlen).
   assert (Hc0 : 0 <= cmax cf) by (unfold cmax; apply IZR_le; destruct Hok as [[H _]|[H _]]; unfold centersample; rewrite H; vm_compute; discriminate).
-
-    pose proof HR as HR'. rewrite HK in HR'.
-    pose proof (Forall2_nth _ _ _ 0%Z (lin2_entry data 0) j HR' ltac:(lia)) as Hr. cbv beta in Hr.
-    rewrite map_nth, seq_nth in Hr by lia. cbn [Nat.add] in Hr.
-    set (Fj := nth j (fdct_islow cf data) 0%Z) in *. set (Lj := lin2_entry data j) in *.
-    assert (HrR : Rabs (IZR Fj - IZR Lj / 67108864) <= IZR (rbound cf) / 67108864).
-    { destruct Hr as [Hr1 Hr2]. apply IZR_le in Hr1, Hr2. rewrite minus_IZR, mult_IZR in Hr1, Hr2.
-      rewrite opp_IZR in Hr1. change (IZR (2 ^ 26)) with 67108864 in *.
-      apply Rabs_le. split; lra. }
-    (* the exact integer graph as a real sum *)
-    assert (HL : IZR Lj / 67108864 =
-                 rsum 64 (fun p => mR (j / 8) (p / 8) * mR (j mod 8) (p mod 8) * vecZ data p)).
-    { unfold Lj, lin2_entry. rewrite IZR_zsum. unfold Rdiv. rewrite <- rsum_scal_r. apply rsum_ext. intros p _.
-      rewrite !mult_IZR. unfold mR, vecZ. field. }
-    assert (HA : 8 * ap 64 dctA2 (vecZ data) j =
-                 rsum 64 (fun p => aR (j / 8) (p / 8) * aR (j mod 8) (p mod 8) * vecZ data p)).
-    { unfold ap. rewrite <- rsum_scal. apply rsum_ext. intros p _. rewrite aR_kron. ring. }
-    assert (HC : Rabs (IZR Lj / 67108864 - 8 * ap 64 dctA2 (vecZ data) j) <= 64 * (2815 / 1000 * acc_delta * cmax cf)).
-    { rewrite HL, HA.
-      replace (rsum 64 (fun p => mR (j / 8) (p / 8) * mR (j mod 8) (p mod 8) * vecZ data p) -
-               rsum 64 (fun p => aR (j / 8) (p / 8) * aR (j mod 8) (p mod 8) * vecZ data p))
-        with (rsum 64 (fun p => (mR (j / 8) (p / 8) * mR (j mod 8) (p mod 8) - aR (j / 8) (p / 8) * aR (j mod 8) (p mod 8)) * vecZ data p)).
-      2:{ rewrite (rsum_ext 64 _ (fun p => mR (j / 8) (p / 8) * mR (j mod 8) (p mod 8) * vecZ data p
-                                      + (-1) * (aR (j / 8) (p / 8) * aR (j mod 8) (p mod 8) * vecZ data p))) by (intros; ring).
-          rewrite rsum_plus, rsum_scal. ring. }
-      replace 64 with (INR 64) at 1 by (simpl; lra). apply rsum_abs_bound. intros p Hp.
-      rewrite Rabs_mult.
-      assert (Hk : Rabs (mR (j / 8) (p / 8) * mR (j mod 8) (p mod 8) - aR (j / 8) (p / 8) * aR (j mod 8) (p mod 8))
-                   <= 2815 / 1000 * acc_delta).
-      { apply kron_entry_accuracy; try (apply Nat.div_lt_upper_bound; lia); apply Nat.mod_upper_bound; lia. }
-      assert (Hx : Rabs (vecZ data p) <= cmax cf).
-      { unfold vecZ, cmax. pose proof (Forall_nth' _ data 0%Z p HF ltac:(lia)) as Hb. unfold inb in Hb.
-        destruct Hb as [Hb1 Hb2]. apply IZR_le in Hb1, Hb2. rewrite opp_IZR in Hb1. apply Rabs_le. lra. }
-      assert (0 <= Rabs (vecZ data p)) by apply Rabs_pos.
-      assert (0 <= Rabs (mR (j / 8) (p / 8) * mR (j mod 8) (p mod 8) - aR (j / 8) (p / 8) * aR (j mod 8) (p mod 8))) by apply Rabs_pos.
-      unfold acc_delta in *. nra. }
-    unfold vecZ at 1. fold Fj.
-    set (Aj := ap 64 dctA2 (vecZ data) j) in *. clearbody Aj Fj Lj.
-    replace (IZR Fj / 8 - Aj)
-      with (((IZR Fj - IZR Lj / 67108864) + (IZR Lj / 67108864 - 8 * Aj)) / 8) by field.
-    unfold Rdiv at 1. rewrite Rabs_mult. rewrite (Rabs_pos_eq (/ 8)) by lra.
-    assert (Rabs (IZR Fj - IZR Lj / 67108864 + (IZR Lj / 67108864 - 8 * Aj)) <= eta8 cf).
-    { eapply Rle_trans; [apply Rabs_triang|]. unfold eta8. lra. }
-    lra. 
+  pose proof (coef_round_real cf data j Hok Hlen HF Hj) as HrR.
+  assert (HX : forall p, (p < 64)%nat -> Rabs (vecZ data p) <= cmax cf).
+  { intros p Hp. unfold vecZ, cmax. pose proof (Forall_nth' _ data 0%Z p HF ltac:(lia)) as Hb. unfold inb in Hb.
+    destruct Hb as [Hb1 Hb2]. apply IZR_le in Hb1, Hb2. rewrite opp_IZR in Hb1. apply Rabs_le. lra. }
+  pose proof (const_part cf (vecZ data) j Hj Hc0 HX) as HC.
+  rewrite <- lin2_real, <- dct2_real in HC.
+  unfold vecZ at 1.
+  generalize dependent (IZR (nth j (fdct_islow cf data) 0%Z)). generalize dependent (IZR (lin2_entry data j) / 67108864).
+  generalize dependent (ap 64 dctA2 (vecZ data) j).
+  intros Aj Lr HC Fr HrR.
+  replace (Fr / 8 - Aj) with (((Fr - Lr) + (Lr - 8 * Aj)) / 8) by field.
+  unfold Rdiv at 1. rewrite Rabs_mult. rewrite (Rabs_pos_eq (/ 8)) by lra.
+  assert (Rabs (Fr - Lr + (Lr - 8 * Aj)) <= eta8 cf).
+  { eapply Rle_trans; [apply Rabs_triang|]. unfold eta8. lra. }
+  lra.
 Qed.
 
 Theorem fdct_accuracy_proof : forall cf data, cfg_ok cf -> length data = 64%nat ->
